@@ -577,10 +577,328 @@ inline J plan_c03(uint64_t verif_seed, uint64_t index, int tier) {
     return plan;
 }
 
+// ------------------------------------------------------------------------------------------- C17
+// Discrete-event scheduler: actors (sessions that share files and handles) are small scripts; each
+// executed step schedules the actor's next one after a seeded delay; the heap of (time, seq) decides
+// the interleaving; when nothing is due the clock jumps to the next event.
+struct Des {
+    struct Ev {
+        int64_t at;
+        uint64_t seq;
+        int actor;
+        bool operator<(const Ev& o) const { return at != o.at ? at > o.at : seq > o.seq; }
+    };
+    std::vector<Ev> heap;
+    uint64_t seq = 0;
+    void push(int64_t at, int actor) {
+        heap.push_back(Ev{at, seq++, actor});
+        std::push_heap(heap.begin(), heap.end());
+    }
+    bool pop(Ev& e) {
+        if (heap.empty()) return false;
+        std::pop_heap(heap.begin(), heap.end());
+        e = heap.back();
+        heap.pop_back();
+        return true;
+    }
+};
+
+inline J random_filter(Rng& r, const model::MLib& m) {
+    std::vector<std::pair<uint32_t, uint32_t>> tags;
+    for (auto& c : m.cells) {
+        for (auto& p : c.polys) tags.push_back({p.layer, p.dtype});
+        for (auto& p : c.paths) tags.push_back({p.layer, p.dtype});
+    }
+    J f = J::arr();
+    int n = (int)r.range(0, 3);
+    for (int i = 0; i < n; i++) {
+        J t = J::arr();
+        if (!tags.empty() && r.chance(0.8)) {
+            auto& tg = tags[r.below(tags.size())];
+            t.push((int64_t)tg.first);
+            t.push((int64_t)(r.chance(0.85) ? tg.second : tg.second + 1));
+        } else {
+            t.push((int64_t)r.below(10));
+            t.push((int64_t)r.below(10));
+        }
+        f.push(t);
+    }
+    return f;
+}
+
+inline J plan_c17(uint64_t verif_seed, uint64_t index, int tier) {
+    uint64_t rs = run_seed(verif_seed, index);
+    Rng root(rs);
+    Rng rm = root.fork(S_MODEL), rc = root.fork(S_CHOICES), rsch = root.fork(S_SCHED), rf = root.fork(S_FAULT),
+        re = root.fork(S_ENV), ro = root.fork(S_OPT);
+    J plan = J::obj();
+    plan.set("prop", "C17");
+    plan.set("seed", J::hex(rs));
+    plan.set("index", (int64_t)index);
+    plan.set("heap_seed", J::hex(re.next()));
+    int64_t t0 = random_clock(re);
+    plan.set("clock", t0);
+    gen::Cfg cfg;
+    cfg.mode = canon::GDS;
+    cfg.max_cells = (int)ro.range(1, 6);
+    cfg.max_elems = (int)ro.range(1, tier ? 12 : 8);
+    cfg.max_vertices = (int)ro.range(4, 24);
+    cfg.simple_polys_only = false;
+    int source = (int)ro.below(3);  // 0 write_gds, 1 GdsWriter, 2 peer
+    model::MLib m = gen::library(rm, cfg);
+    if (source == 2) {
+        m = gdsify(m);
+        c03_extras(rm, m);
+    }
+    // a second small model supplies fresh cells for writer sessions (names must not clash with the first)
+    gen::Cfg cfg2 = cfg;
+    cfg2.max_cells = 3;
+    cfg2.max_elems = 4;
+    Rng rm2 = rm.fork(9);
+    model::MLib m2 = gen::library(rm2, cfg2);
+    m2.unit = m.unit;
+    m2.precision = m.precision;
+    for (auto& c : m2.cells) {
+        std::string old = c.name;
+        c.name = "N_" + c.name;
+        for (auto& c3 : m2.cells)
+            for (auto& rr : c3.refs)
+                if (rr.target == old) rr.target = c.name;
+    }
+    J models = J::arr();
+    models.push(model::to_json(m));
+    models.push(model::to_json(m2));
+    plan.set("models", models);
+
+    const char* F = "/sim/f.gds";
+    J ops = J::arr();
+    ops.push(knobs_op(re, 6, 10));
+    // the Author's first two steps are fixed: produce F and take the reference full load
+    if (source == 2) {
+        J p = op("peer_gds");
+        p.set("model", 0);
+        p.set("file", F);
+        gdspeer::Choices ch = gdspeer::random_choices(rc);
+        ch.elflags = false;
+        ch.header_extras = false;
+        p.set("choices", gdspeer::to_json(ch));
+        ops.push(p);
+    } else {
+        J s = op("save_gds");
+        s.set("model", 0);
+        s.set("file", F);
+        s.set("max_points", 0);
+        s.set("ts", random_ts(ro));
+        s.set("via", source == 1 ? "writer" : "lib");
+        ops.push(s);
+    }
+    {
+        J l = op("load_check");
+        l.set("file", F);
+        J e = J::obj();
+        e.set("model", 0);
+        l.set("expect", e);
+        l.set("keep", "FULL");
+        ops.push(l);
+    }
+    // actors: 0 loader A, 1 loader B, 2 raw holder X, 3 raw holder Y, 4 stamper, 5 environment, 6 writer session
+    struct Actor {
+        int kind;
+        int steps_left;
+        int phase = 0;
+        std::string name;
+    };
+    std::vector<Actor> actors;
+    actors.push_back({0, (int)rsch.range(2, 6), 0, "LA"});
+    if (rsch.chance(0.5)) actors.push_back({0, (int)rsch.range(1, 4), 0, "LB"});
+    int nraw = (int)rsch.range(0, 2);
+    for (int i = 0; i < nraw; i++) actors.push_back({2, 0, 0, i == 0 ? "RX" : "RY"});
+    int nstamp = rsch.chance(0.6) ? (int)rsch.range(1, 2) : 0;
+    if (nstamp) actors.push_back({4, nstamp, 0, "ST"});
+    actors.push_back({5, (int)rsch.range(0, 3), 0, "ENV"});
+    bool session = nraw > 0 && rsch.chance(0.6);
+    if (session) actors.push_back({6, 0, 0, "WS"});
+    Des des;
+    for (size_t i = 0; i < actors.size(); i++) des.push(t0 + (int64_t)rsch.range(1, 1000), (int)i);
+    int64_t now = t0;
+    Des::Ev ev;
+    int guard = 0;
+    int ndest = 0;
+    while (des.pop(ev) && guard++ < 200) {
+        if (ev.at > now) {
+            J c = op("clock");
+            c.set("set", ev.at);
+            ops.push(c);
+            now = ev.at;
+        }
+        Actor& a = actors[ev.actor];
+        int64_t delay = rsch.chance(0.15) ? rsch.range(100000, 400000000) : rsch.range(1, 5000);
+        bool again = false;
+        switch (a.kind) {
+            case 0: {  // loader
+                if (a.steps_left-- <= 0) break;
+                again = a.steps_left > 0;
+                switch (rsch.below(6)) {
+                    case 0: {
+                        J o = op("info_check");
+                        o.set("file", F);
+                        ops.push(o);
+                    } break;
+                    case 1: {
+                        J o = op("gds_units");
+                        o.set("file", F);
+                        o.set("repeat", 1);
+                        ops.push(o);
+                    } break;
+                    case 2: {
+                        J o = op("gds_timestamp");
+                        o.set("file", F);
+                        o.set("repeat", 1);
+                        ops.push(o);
+                    } break;
+                    case 3: {
+                        J o = op("load_check");
+                        o.set("file", F);
+                        J e = J::obj();
+                        e.set("canon", "FULL");
+                        o.set("expect", e);
+                        o.set("filter", random_filter(rsch, m));
+                        ops.push(o);
+                    } break;
+                    case 4: {
+                        J o = op("load_check");
+                        o.set("file", F);
+                        J e = J::obj();
+                        e.set("canon", "FULL");
+                        o.set("expect", e);
+                        static const double units[] = {1e-6, 1e-9, 1e-3, 2.5e-7, 1.0, 2.54e-5};
+                        o.set("unit", units[rsch.below(6)]);
+                        if (rsch.chance(0.3)) o.set("filter", random_filter(rsch, m));
+                        ops.push(o);
+                    } break;
+                    default: {
+                        J o = op("load_check");
+                        o.set("file", F);
+                        J e = J::obj();
+                        e.set("canon", "FULL");
+                        o.set("expect", e);
+                        ops.push(o);
+                    }
+                }
+            } break;
+            case 2: {  // raw holder: open, then drains / partial clears, finally clear everything
+                if (a.phase == 0) {
+                    J o = op("raw_open");
+                    o.set("file", F);
+                    o.set("slot", a.name);
+                    ops.push(o);
+                    a.phase = 1;
+                    a.steps_left = (int)rsch.range(1, 3);
+                    again = true;
+                } else if (a.phase == 1 && a.steps_left-- > 0) {
+                    if (rsch.chance(0.75)) {
+                        J o = op("raw_drain");
+                        o.set("slot", a.name);
+                        o.set("file", "/sim/d" + std::to_string(ndest++) + ".gds");
+                        J pick = J::arr();
+                        int n = (int)rsch.range(1, 3);
+                        for (int i = 0; i < n; i++) pick.push((int64_t)rsch.below(1000));
+                        o.set("pick", pick);
+                        o.set("ts", random_ts(rsch));
+                        ops.push(o);
+                    } else {
+                        J o = op("raw_clear");
+                        o.set("slot", a.name);
+                        o.set("order", (int64_t)rsch.below(1u << 30));
+                        o.set("count", (int64_t)rsch.range(1, 2));
+                        ops.push(o);
+                    }
+                    again = true;
+                } else if (a.phase == 1) {
+                    J o = op("raw_clear");
+                    o.set("slot", a.name);
+                    o.set("order", (int64_t)rsch.below(1u << 30));
+                    ops.push(o);
+                    a.phase = 2;
+                }
+            } break;
+            case 4: {  // stamper
+                if (a.steps_left-- <= 0) break;
+                again = a.steps_left > 0;
+                J o = op("stamp");
+                o.set("file", F);
+                o.set("ts", random_ts(rsch));
+                if (rf.chance(0.25)) {
+                    J f = J::obj();
+                    f.set("crash_at", (int64_t)rf.range(1, 20));
+                    f.set("torn", rf.chance(0.5) ? (int64_t)rf.range(1, 23) : 0);
+                    o.set("fault", f);
+                    static const int64_t bufs[] = {0, 1, 5, 24, 100, 4096};
+                    o.set("buf", bufs[rf.below(6)]);
+                }
+                ops.push(o);
+            } break;
+            case 5: {  // environment
+                if (a.steps_left-- <= 0) break;
+                again = a.steps_left > 0;
+                ops.push(knobs_op(re, 6, 10));
+            } break;
+            case 6: {  // incremental writer session mixing fresh cells and raw cells over several turns
+                if (a.phase == 0) {
+                    J o = op("writer_open");
+                    o.set("w", "W");
+                    o.set("file", "/sim/s.gds");
+                    o.set("model", 1);
+                    o.set("units_of", "RX");
+                    o.set("ts", random_ts(rsch));
+                    ops.push(o);
+                    a.phase = 1;
+                    a.steps_left = (int)rsch.range(1, 5);
+                    again = true;
+                } else if (a.phase == 1 && a.steps_left-- > 0) {
+                    if (rsch.chance(0.5)) {
+                        J o = op("writer_cell");
+                        o.set("w", "W");
+                        o.set("cell", (int64_t)rsch.below(100));
+                        ops.push(o);
+                    } else {
+                        J o = op("writer_raw");
+                        o.set("w", "W");
+                        o.set("slot", rsch.chance(0.8) ? "RX" : "RY");
+                        J pick = J::arr();
+                        pick.push((int64_t)rsch.below(1000));
+                        o.set("pick", pick);
+                        ops.push(o);
+                    }
+                    again = true;
+                } else if (a.phase == 1) {
+                    J o = op("writer_close");
+                    o.set("w", "W");
+                    ops.push(o);
+                    a.phase = 2;
+                }
+            } break;
+        }
+        if (again) des.push(now + delay, ev.actor);
+    }
+    // closing full load: whatever happened, F still loads to the same layout
+    {
+        J l = op("load_check");
+        l.set("file", F);
+        J e = J::obj();
+        e.set("canon", "FULL");
+        l.set("expect", e);
+        ops.push(l);
+    }
+    plan.set("ops", ops);
+    return plan;
+}
+
 inline J make_plan(const std::string& prop, uint64_t verif_seed, uint64_t index, int tier) {
     if (prop == "C18") return plan_c18(verif_seed, index, tier);
     if (prop == "C01") return plan_c01(verif_seed, index, tier);
     if (prop == "C03") return plan_c03(verif_seed, index, tier);
+    if (prop == "C17") return plan_c17(verif_seed, index, tier);
     return J();
 }
 
